@@ -46,6 +46,12 @@ type E2ELaunch struct {
 	GPU  int       `json:"gpu"`
 	Grid [3]uint32 `json:"grid"`
 	WG   [3]uint16 `json:"wg"`
+	// what the member GPUs of a unified device must all receive alike
+	GroupSegmentSize   uint32 `json:"group_segment_size"`
+	PrivateSegmentSize uint32 `json:"private_segment_size"`
+	KernargSHA256      string `json:"kernarg_sha256"` // content of the kernel-argument buffer ("" = not readable)
+	KernargHead        string `json:"kernarg_head"`
+	kernarg            uint64
 }
 
 type E2EBuffer struct {
@@ -88,7 +94,9 @@ func (s *launchSpy) Func(ctx sim.HookCtx) {
 	p := req.Packet
 	s.out = append(s.out, E2ELaunch{GPU: k,
 		Grid: [3]uint32{p.GridSizeX, p.GridSizeY, p.GridSizeZ},
-		WG:   [3]uint16{p.WorkgroupSizeX, p.WorkgroupSizeY, p.WorkgroupSizeZ}})
+		WG:   [3]uint16{p.WorkgroupSizeX, p.WorkgroupSizeY, p.WorkgroupSizeZ},
+		GroupSegmentSize: p.GroupSegmentSize, PrivateSegmentSize: p.PrivateSegmentSize,
+		kernarg: p.KernargAddress})
 }
 
 func parseGPUs(s string) []int {
@@ -159,6 +167,21 @@ func runE2E(bench string, size int, gpuList string, unified, timing bool) {
 			if !vb.Freed {
 				sizes[vb.Ptr] = vb.Size
 				owner[vb.Ptr] = ctx
+			}
+		}
+	}
+	// the kernel arguments every launch pointed to
+	for i := range res.Launches {
+		l := &res.Launches[i]
+		p := driver.Ptr(l.kernarg)
+		if sz, ok := sizes[p]; ok && sz > 0 {
+			data := make([]byte, sz)
+			d.MemCopyD2H(owner[p], data, p)
+			h := sha256.Sum256(data)
+			l.KernargSHA256 = hex.EncodeToString(h[:])
+			l.KernargHead = hex.EncodeToString(data)
+			if len(l.KernargHead) > 160 {
+				l.KernargHead = l.KernargHead[:160]
 			}
 		}
 	}
